@@ -469,6 +469,10 @@ std::string runCase(const Case &c) {
     if (it.width > 0) { hasWidth = true; st.cls(it.left ? "width.left" : "width.right"); }
     if (it.width > 0 && i + 1 < c.def.items.size() && isField(c.def.items[i + 1].kind) && c.def.items[i + 1].width == 0)
       st.cls("width.followed_by_plain_field");
+    if (it.width > 0 && it.kind == K_CONST) st.cls(static_cast<size_t>(it.width) > it.s.size() ? "width.padded_constant" : "width.on_constant_no_padding");
+    if (it.width > 0 && static_cast<size_t>(it.width) > it.s.size() && it.kind == K_CONST && i + 1 < c.def.items.size() &&
+        (c.def.items[i + 1].kind == K_CONST ? c.def.items[i + 1].width == 0 : (isField(c.def.items[i + 1].kind) && sepInEffect)))
+      st.cls("width.padded_constant_followed_by_constant_or_separator");
     if (!it.fmt.empty()) st.cls(isDateTime(it.kind) ? "fmt.custom" : "fmt.before_other_field");
     if (isDateTime(it.kind) || it.kind == K_ATTR) hasTimeOrAttr = true;
   }
@@ -602,7 +606,12 @@ rc::Gen<Item> genItem(bool sepAllowed) {
     it.viaMethod = *range<int>(0, 3) == 0;
     if (it.kind == K_SEP) { it.s = *rc::gen::weightedOneOf<std::string>({{8, pick(kSeps)}, {1, just<std::string>("")}}); return it; }
     if (it.kind == K_SEP_OFF) return it;
-    if (it.kind == K_CONST) { it.s = *rc::gen::weightedOneOf<std::string>({{5, pick(kConstants)}, {1, genWord(1, 8)}}); return it; }
+    if (it.kind == K_CONST) {
+      it.s = *rc::gen::weightedOneOf<std::string>({{5, pick(kConstants)}, {1, genWord(1, 8)}});
+      // a constant text is a field like any other: width and alignment given in front of it apply to it
+      if (*range<int>(0, 9) < 3) { it.width = *range<int>(1, 12); it.left = *rc::gen::arbitrary<bool>(); it.widthFirst = *rc::gen::arbitrary<bool>(); }
+      return it;
+    }
     if (it.kind == K_ATTR) it.s = *genAttrName();
     // width and alignment belong to the field that follows them
     if (*range<int>(0, 9) < 5) it.width = *rc::gen::weightedOneOf<int>({{2, range<int>(1, 4)}, {5, range<int>(5, 30)}});
